@@ -43,6 +43,9 @@ type c18Case struct {
 	Init    string  `json:"init"`
 	Depth   int     `json:"depth"`
 	NoDedup bool    `json:"nodedup,omitempty"`
+	// Held: every operation goes through ONE selection of list l taken before the history starts
+	// (entries are reached by iterating it), the way a caller works that keeps the list at hand.
+	Held bool `json:"held,omitempty"`
 	Ops     []c18Op `json:"ops,omitempty"`
 }
 
@@ -50,6 +53,7 @@ var c18Inits = map[string]string{
 	"empty": `{}`,
 	"two":   `{"top":"a","c":{"a":"a","b":7,"d":{"x":"a","y":5}},"l":[{"k":"a","v":1,"w":"dw"},{"k":"b","v":2,"w":"dw","m":{"z":"a","zd":9},"n":[{"j":1,"u":"a"},{"j":2,"u":"b"}]}]}`,
 	"three": `{"l":[{"k":"a","v":1,"w":"dw"},{"k":"b","v":2,"w":"dw"},{"k":"c","v":1,"w":"b"}]}`,
+	"onlyb": `{"l":[{"k":"b","v":2,"w":"dw"}]}`,
 }
 
 var c18Alphabet = []c18Op{
@@ -77,7 +81,26 @@ var c18Alphabet = []c18Op{
 	{"upsert", "l=b", `{"m":{"z":"a"}}`},
 }
 
-var c18Stores = []string{"ref", "reflect-map", "node-map", "reflect-slice", "node-slice", "reflect-struct", "node-struct", "reflect-structmap", "node-structmap"}
+// operations of the held-list histories (besides the list-level ones of c18Alphabet): entries are
+// collected from the held selection first and deleted afterwards
+var c18HeldAlphabet = []c18Op{
+	{"upsert", "", `{"l":[{"k":"a","v":1}]}`},
+	{"upsert", "", `{"l":[{"k":"b","v":2}]}`},
+	{"upsert", "", `{"l":[{"k":"c","w":"x"}]}`},
+	{"upsert", "", `{"l":[{"k":"d","v":1},{"k":"a","v":2}]}`}, // a new entry before an existing one
+	{"insert", "l", `{"l":[{"k":"a","v":2}]}`},
+	{"insert", "l", `{"l":[{"k":"b","v":1}]}`},
+	{"delete", "l=a", ""},
+	{"delete", "l=b", ""},
+	{"delete", "l=c", ""},
+	{"delete-collected", "l=a+l=b", ""},
+	{"delete-collected", "l=b+l=c", ""},
+	{"delete-collected", "l=c+l=a", ""},
+	{"replace", "l=a", `{"l":[{"k":"a","w":"b"}]}`},
+	{"replace", "l=b", `{"l":[{"k":"b","v":1}]}`},
+}
+
+var c18Stores = []string{"ref", "reflect-map", "node-map", "reflect-slice", "node-slice", "reflect-struct", "node-struct", "reflect-structmap", "node-structmap", "reflect-structval"}
 
 func (p *c18) Bounds(tier string) map[string]interface{} {
 	d := 3
@@ -104,12 +127,28 @@ func (p *c18) Cases(tier string, emit func(interface{})) {
 			// hidden state (backing arrays): full history tree without deduplication
 			emit(c18Case{Part: "bfs", Schema: "base", Store: st, Init: "three", Depth: d - 1, NoDedup: true})
 		}
+		// hidden state (whatever the list node caches): full history tree
+		emit(c18Case{Part: "bfs", Schema: "base", Store: st, Init: "three", Depth: d - 1, NoDedup: true, Held: true})
+		emit(c18Case{Part: "bfs", Schema: "base", Store: st, Init: "onlyb", Depth: d - 1, NoDedup: true, Held: true})
 	}
 }
 
 type c18Inst struct {
 	env   *dataEnv
 	model *model.Tree
+	held  *node.Selection
+	steps int
+}
+
+// heldOpEnabled: map-backed list nodes (Reflect.listMap, nodeutil.Node's mapAsList) keep the sorted key
+// order of their first row request for as long as the list selection lives (iteration stays stable
+// while entries come and go), so reaching entries by iterating a held selection is only asked of them
+// before the first change; slice-backed lists re-read their rows and are asked always.
+func heldOpEnabled(c c18Case, inst *c18Inst, op c18Op) bool {
+	if !c.Held || !inst.env.st.MapLists() || inst.steps == 0 {
+		return true
+	}
+	return !strings.Contains(op.Path, "=")
 }
 
 func c18New(c c18Case) *c18Inst {
@@ -121,7 +160,36 @@ func c18New(c c18Case) *c18Inst {
 	if err := env.populate(t); err != nil {
 		panic(fmt.Sprintf("harness: populate %s: %v", c.Init, err))
 	}
-	return &c18Inst{env: env, model: t}
+	inst := &c18Inst{env: env, model: t}
+	if c.Held {
+		var err error
+		if inst.held, err = env.b.Root().Find("l"); err != nil || inst.held == nil {
+			panic(fmt.Sprintf("harness: no list to hold: %v", err))
+		}
+	}
+	return inst
+}
+
+// heldEntries collects, in one pass over the held list selection, the entries with the given keys.
+func heldEntries(held *node.Selection, keys []string) ([]*node.Selection, error) {
+	out := make([]*node.Selection, len(keys))
+	li, err := held.First()
+	for ; err == nil && li.Selection != nil; li, err = li.Next() {
+		for i, k := range keys {
+			if len(li.Key) == 1 && li.Key[0].String() == k {
+				out[i] = li.Selection
+			}
+		}
+	}
+	if err != nil {
+		return nil, err
+	}
+	for i, s := range out {
+		if s == nil {
+			return nil, fmt.Errorf("harness: entry %s not reached by iterating the held list selection", keys[i])
+		}
+	}
+	return out, nil
 }
 
 // parentOf splits "l=b/n=1" into ("l=b", "n=1").
@@ -173,6 +241,14 @@ func modelDelete(m *meta.Module, t *model.Tree, path string) bool {
 }
 
 func c18Enabled(m *meta.Module, t *model.Tree, op c18Op) bool {
+	if op.Kind == "delete-collected" {
+		for _, p := range strings.Split(op.Path, "+") {
+			if tt, _ := (entryPoint{p}).locate(m, t); tt == nil {
+				return false
+			}
+		}
+		return true
+	}
 	tt, tl := entryPoint{op.Path}.locate(m, t)
 	return tt != nil || tl != nil
 }
@@ -181,15 +257,42 @@ func c18Step(c c18Case, inst *c18Inst, op c18Op) []eng.StepViol {
 	env := inst.env
 	m := env.m
 	site := fmt.Sprintf("C18/%s/%s/%s", c.Store, op.Kind, c18Target(m, op))
-	if !c18Enabled(m, inst.model, op) {
+	if c.Held {
+		site = fmt.Sprintf("C18/%s/held-list/%s/%s", c.Store, op.Kind, c18Target(m, op))
+	}
+	if !c18Enabled(m, inst.model, op) || !heldOpEnabled(c, inst, op) {
 		return nil
 	}
+	inst.steps++
 	before := inst.model.Clone()
 	desc := fmt.Sprintf("%s on %s", op, before)
 	var err error
 	fr, msg, pan := eng.Recover(func() {
 		sel := env.b.Root()
-		if op.Path != "" {
+		if c.Held {
+			sel = inst.held
+			var keys []string
+			for _, p := range strings.Split(op.Path, "+") {
+				if strings.HasPrefix(p, "l=") {
+					keys = append(keys, p[2:])
+				}
+			}
+			var entries []*node.Selection
+			if len(keys) > 0 {
+				if entries, err = heldEntries(inst.held, keys); err != nil {
+					return
+				}
+				sel = entries[0]
+			}
+			if op.Kind == "delete-collected" {
+				for _, e := range entries {
+					if err = e.Delete(); err != nil {
+						return
+					}
+				}
+				return
+			}
+		} else if op.Path != "" {
 			sel, err = sel.Find(op.Path)
 			if err != nil || sel == nil {
 				if err == nil {
@@ -237,11 +340,19 @@ func c18Step(c c18Case, inst *c18Inst, op c18Op) []eng.StepViol {
 	}
 	switch op.Kind {
 	case "upsert":
+		if c.Held {
+			apply(model.Upsert, "l", op.Doc)
+			break
+		}
 		apply(model.Upsert, op.Path, op.Doc)
 	case "insert":
 		apply(model.Insert, op.Path, op.Doc)
 	case "delete":
 		modelDelete(m, want, op.Path)
+	case "delete-collected":
+		for _, p := range strings.Split(op.Path, "+") {
+			modelDelete(m, want, p)
+		}
 	case "replace":
 		modelDelete(m, want, op.Path)
 		parent, _ := splitLast(op.Path)
@@ -282,6 +393,9 @@ func c18Step(c c18Case, inst *c18Inst, op c18Op) []eng.StepViol {
 }
 
 func c18Target(m *meta.Module, op c18Op) string {
+	if op.Kind == "delete-collected" {
+		return "entries:l=K+l=K"
+	}
 	k := entryPoint{op.Path}.kind(m)
 	if op.Path == "" {
 		return "root"
@@ -367,8 +481,12 @@ func (p *c18) Run(raw json.RawMessage) eng.Result {
 		New: func() *c18Inst { return c18New(c) },
 		Ops: func(inst *c18Inst) []c18Op {
 			var en []c18Op
-			for _, op := range c18Alphabet {
-				if c18Enabled(m, inst.model, op) {
+			alpha := c18Alphabet
+			if c.Held {
+				alpha = c18HeldAlphabet
+			}
+			for _, op := range alpha {
+				if c18Enabled(m, inst.model, op) && heldOpEnabled(c, inst, op) {
 					en = append(en, op)
 				}
 			}
